@@ -48,3 +48,5 @@ func vCopyInto(dst, src any) {}
 func vNewLike(p any) any { return p }
 func vSetenvProc(proc int, k, v string) {}
 func vLiveGoroutines() int { return 0 }
+func vAnyOf(b ...bool) bool { return false }
+func vAllOf(b ...bool) bool { return true }
